@@ -83,7 +83,7 @@ def parseSOp (t : String) : Option SOp :=
 def showPacket (p : Packet) : String := s!"{p.seq}:{showBool p.known}:{hexEncode p.payload}"
 
 /-- `C15 lsn <ops>`: listener life cycle.  ops `,`-joined: L Listen, K Listener.Close, A Accept
-called, O<sid> incoming open request.  answer per op: `l` / `k` / `a` / `res` | `na` | `wait`
+called, O<sid> incoming open request, E<sid> Expect called for that sid, X its context ends.  answer per op: `l` / `k` / `a` / `res` | `na` | `wait`
 (the serve loop is still inside the previous hand-off), each followed by `+c` / `+e` for every
 Accept call that returns a connection / an error at that point -/
 def lsnRun : LState → List String → Option (List String)
@@ -94,6 +94,8 @@ def lsnRun : LState → List String → Option (List String)
       | ['K'] => some (LOp.closeL, "k")
       | ['A'] => some (LOp.accept, "a")
       | 'O' :: r => (String.ofList r).toNat?.map fun n => (LOp.open n, "o")
+      | 'E' :: r => (String.ofList r).toNat?.map fun n => (LOp.expect n, "e")
+      | ['X'] => some (LOp.cancelExpect, "x")
       | _ => none
     let o := lstep s op
     let base := match op, o.reply with
@@ -101,7 +103,8 @@ def lsnRun : LState → List String → Option (List String)
       | .open _, some false => "na"
       | .open _, none => "wait"
       | _, _ => tag
-    let suffix := String.join (List.replicate o.conns "+c") ++ String.join (List.replicate o.errs "+e")
+    let suffix := String.join (List.replicate o.conns "+c") ++ String.join (List.replicate o.errs "+e") ++
+      (if o.xconn then "+xc" else "") ++ (if o.xerr then "+xe" else "")
     let rest ← lsnRun o.st ts
     pure ((base ++ suffix) :: rest)
 
